@@ -609,6 +609,9 @@ def wrap(lets, body):
 
 
 # ---------------------------------------------------------------- one spec, all solver settings
+quick_all = False  # thorough tier: every setting goes through the Coq correspondence
+
+
 def explore(spec, rng_hints):
     """Run every solver setting on one spec.  Returns dict with outcomes, oracle verdicts and Coq cases."""
     rec = {"spec": spec, "status": None, "bad": [], "dfs_cases": [], "ans_cases": [], "runs": 0, "skipped": None, "outs": {}}
@@ -668,7 +671,9 @@ def explore(spec, rng_hints):
             if len(st) == 3 and len({v == "INFEASIBLE" for v in st.values()}) > 1 and not rec["bad"]:
                 rec["bad"].append(("all", limit, hints, f"back-ends disagree on satisfiability: {st}", None))
             # model correspondence (DFS path)
-            if supported and outs["dfs"][0] == "ok" and "dfs" not in judged_bad and len(truth) <= 400:
+            wide = max([hi - lo for _, lo, hi in spec["vars"]] + [0]) > 20  # vm_compute of the list-based model: O(width^3)
+            if supported and outs["dfs"][0] == "ok" and "dfs" not in judged_bad and len(truth) <= 400 and not (wide and limit != 3) \
+                    and (hints is None or limit == 3 or quick_all):
                 o = outs["dfs"]
                 impl = [] if o[1] == "INFEASIBLE" else o[2]
                 if all(isinstance(s, dict) for s in impl):
@@ -916,8 +921,8 @@ def known_cases(rng, thorough):
     # beyond Python's default recursion limit (fixed by 6a89d67: one DFS frame per open variable, one _linearize
     # step per operator): 1025+ open variables, sums of 1025+ terms (most of them over fixed variables, so that
     # the search stays small while the expression is deep)
-    n = rng.choice([1025, 1100]) if not T else 2049
-    out.append(({"vars": [[f"f{i}", 0, 1] for i in range(n)], "cons": []}, {"feasible": True}, [("dfs", 1), ("auto", 1), ("sat", 1)], 120))
+    if T:  # (quick: the committed regression descriptor runs 1100 free variables on every run)
+        out.append(({"vars": [[f"f{i}", 0, 1] for i in range(2049)], "cons": []}, {"feasible": True}, [("dfs", 1), ("auto", 1), ("sat", 1)], 120))
     for k in ([rng.choice([1025, 1100])] if not T else [1100, 2049]):
         step = k // rng.randint(8, 14)
         vs, planted = [], []
@@ -1041,12 +1046,40 @@ def cyclic_spec(rng, small=True):
     return {"vars": vs, "cons": cons, "family": "W"}
 
 
+def ladder_spec(rng, D):
+    """x == y, x + off == y over exactly D values (optionally with bystander variables / constraints, a third variable in
+    the cycle, or the repairing switch): one _propagate call needs about D / (2 off) sweeps and ends - just before the
+    contradiction shows - on singleton domains.  Every D of a range is generated, so that a limit on the number of
+    sweeps (whatever its formula: a constant, #variables + #constraints, ...) is crossed exactly once in the range."""
+    off = rng.choice([1, 1, 1, 2])
+    lo = rng.choice([0, 0, 1, -3])
+    vs = [["x", lo, lo + D - 1], ["y", lo, lo + D - 1]]
+    cons = [["lin", V(0), V(1), False], ["lin", ["add", V(0), K(off)], V(1), False]]
+    r = rng.random()
+    if r < 0.2 and D <= 24:  # three variables in the cycle
+        vs.append(["w", lo, lo + D - 1])
+        cons = [["lin", V(0), V(1), False], ["lin", V(1), V(2), False], ["lin", ["add", V(2), K(off)], V(0), False]]
+    elif r < 0.4:  # z = 1 repairs the cycle
+        vs.append(["z", 0, 1])
+        cons[1] = ["lin", ["add", V(0), K(off)], ["add", V(1), ["mul", off, V(len(vs) - 1)]], False]
+    for _ in range(rng.choice([0, 0, 1, 2, 3])):  # bystanders change #variables / #constraints only
+        if rng.random() < 0.5 and box_size({"vars": vs}) * 2 <= 20000:
+            vs.append([f"u{len(vs)}", 0, 1])
+        else:
+            cons.append(["lin", V(0), K(lo - 1 - rng.randint(0, 3)), True])
+    if rng.random() < 0.3:
+        cons.reverse()
+    return {"vars": vs, "cons": cons, "family": "W"}
+
+
 def work_cases(rng, thorough):
     """(label, spec, known, settings, timeout): by-construction instances that maximise the iteration count of one
     loop of the implementation at moderate input size (2^7 .. 2^12 / 10^4 in quick, 10^4 .. 10^5 in thorough)."""
     out = []
     # sweeps of one _propagate call: x == y, x + 1 == y trims two values per sweep -> D / 2 sweeps
-    sizes = [(300, False), (2100, True), (8300, rng.random() < 0.5)] + ([(20100, False), (20100, True)] if thorough else [])
+    # D = 2 K for the usual caps K = 2^7, 2^10, 2^11, 2^12 (and one step beyond), 10^4 in thorough
+    sizes = [(254, False), (256, rng.random() < 0.5), (258, False), (2048, rng.random() < 0.5), (2050, False), (4096, False),
+             (8192, rng.random() < 0.5)] + ([(2046, True), (4098, True), (8194, True), (20000, False), (20002, True)] if thorough else [])
     for D, switch in sizes:
         off = 1
         vs = ([["z", 0, 1]] if switch else []) + [["x", 0, D - 1], ["y", 0, D - 1]]
@@ -1219,7 +1252,7 @@ def regression_cases():
         n = r["n"]
         if r["shape"] == "free_binary_variables":
             sp = {"vars": [[f"x{i}", 0, 1] for i in range(n)], "cons": []}
-            out.append((sp, {"feasible": True}, [("dfs", 1), ("auto", 1), ("sat", 1)], 120))
+            out.append((sp, {"feasible": True}, [("dfs", 1), ("sat", 1)], 120))
         elif r["shape"] == "sum_of_terms":
             # x0 + ... + x(n-1) == total over variables that are fixed except every `step`-th (binary) one
             vs = [[f"x{i}", 0, 1] if i % r["step"] == 0 else [f"x{i}", 1, 1] for i in range(n)]
@@ -1607,7 +1640,9 @@ def run(ctx: Ctx):
                 "distinct = canonical JSON of the spec")
     ctx.proof_step(["C05"])
     thorough = ctx.tier == "thorough"
-    n = ctx.budget(260, 5000)
+    global quick_all
+    quick_all = thorough
+    n = ctx.budget(210, 5000)
     specs = []
     seen_events = {}
     for o in _corpus():
@@ -1627,11 +1662,13 @@ def run(ctx: Ctx):
         s.setdefault("family", "R")
         specs.append(s)
     # M: magnitudes
-    for _ in range(ctx.budget(90, 1500)):
+    for _ in range(ctx.budget(75, 1500)):
         specs.append(decorate(ctx.rng, rand_spec_big(ctx.rng)))
     # W (small, brute-forced): cyclic offset equalities needing many propagation sweeps
-    for _ in range(ctx.budget(45, 700)):
+    for _ in range(ctx.budget(30, 700)):
         specs.append(decorate(ctx.rng, cyclic_spec(ctx.rng)))
+    for D in range(2, ctx.budget(84, 132)):  # every domain size of a range: a sweep limit is crossed exactly somewhere
+        specs.append(ladder_spec(ctx.rng, D))
     # H: event-directed
     for score, sp, new in event_guided(ctx.rng, ctx.budget(40, 500), seen_events, ctx.budget(1500, 25000)):
         specs.append(sp)
@@ -1639,6 +1676,14 @@ def run(ctx: Ctx):
             ctx.count("rare_event", e)
 
     dfs_cases, dfs_meta, ans_cases, ans_meta = [], [], [], []
+    import time as _time
+    _t = [_time.time()]
+
+    def lap(name):
+        ctx.count("phase_seconds", f"{name}={_time.time() - _t[0]:.0f}")
+        _t[0] = _time.time()
+
+    lap("proofs+generation")
 
     def report(sp, solver, limit, h, bad, out, extra=None):
         small = sp
@@ -1725,6 +1770,7 @@ def run(ctx: Ctx):
             ans_cases.append(term)
             ans_meta.append(sp)
 
+    lap("small specs (brute force)")
     # S: size thresholds, answers known by construction (plus the committed regression descriptors)
     for sp, known, settings, timeout in known_cases(ctx.rng, thorough) + regression_cases():
         fam = {k: sp[k] for k in ("vars", "cons")}
@@ -1739,6 +1785,7 @@ def run(ctx: Ctx):
             ans_cases.append(term)
             ans_meta.append({"vars": len(sp["vars"]), "cons": len(sp["cons"])})
 
+    lap("S size families")
     # W: work volume, one loop at a time; the counts reached are reported in the evidence
     work = {"propagate_sweeps_one_call": 0, "dfs_nodes": 0, "values_of_one_node": 0, "expression_terms": 0,
             "cumulative_time_points": 0, "sat_decisions": 0, "solutions_enumerated": 0}
@@ -1766,6 +1813,7 @@ def run(ctx: Ctx):
     for k, v in work.items():
         ctx.count("work_max", f"{k}={v}")
 
+    lap("W work volume")
     fail_dfs = ctx.coq_check(
         "dfs", IMPORTS, "cpmodel * list (nat * Z) * Z * list sol",
         "fun c => let '(M, h, l, impl) := c in wf_dfs M && corr_set M h l impl && (if in_0_7 M then corr_exact M h l impl else true)",
@@ -1773,6 +1821,7 @@ def run(ctx: Ctx):
     fail_ans = ctx.coq_check(
         "answers", IMPORTS, "cpmodel * option (list sol)",
         "fun c => wf_dfs (fst c) && answer_check (fst c) (snd c)", ans_cases, shard=150)
+    lap("coq correspondence")
     ctx.count("coq_cases", "dfs", len(dfs_cases))
     ctx.count("coq_cases", "answers", len(ans_cases))
 
